@@ -124,13 +124,36 @@ def c05_2(ctx: Ctx) -> RuleResult:
         init = c.methods.get("__init__")
         models = {k.name for k in ctx.repo.classes.values() if k.module is c.module and {"first", "last"} <= set(k.fields)}
         if init is not None:
-            for mt in nodes_in(init, ast.Match):
-                for case in mt.cases:
-                    used = {x.id for x in ast.walk(case) if isinstance(x, ast.Name) and x.id in models}
-                    if used:
-                        calls_chk = any(isinstance(x, ast.Call) and isinstance(x.func, ast.Attribute) and x.func.attr == chk.name for s in case.body for x in ast.walk(s))
-                        res.add(init, case.body[0], f"method using {sorted(used)} validates its window at construction", calls_chk,
-                                "" if calls_chk else "a first/last method is constructed without window validation", construct=f"{c.name}.__init__: validate {sorted(used)}")
+            from ..util import bool_nnf, path_condition
+
+            covered: dict[str, ast.AST] = {}
+            chk_calls = [x for x in ast.walk(init.node) if isinstance(x, ast.Call) and isinstance(x.func, ast.Attribute) and x.func.attr == chk.name]
+            for call_ in chk_calls:
+                names = set()
+                cur = parent(call_)
+                in_case = False
+                while cur is not None and cur is not init.node:
+                    if isinstance(cur, ast.match_case):
+                        in_case = True
+                        names |= {x.id for x in ast.walk(cur) if isinstance(x, ast.Name) and x.id in models}
+                    cur = parent(cur)
+                st_ = call_
+                while parent(st_) is not None and not isinstance(st_, ast.stmt):
+                    st_ = parent(st_)
+                pc = path_condition(ctx, init, st_)
+                if pc:
+                    g_ = bool_nnf(("bool", "and", tuple(c_ if p_ else ("unary", "not", c_) for c_, p_ in pc)))
+                    for it in (g_[1] if g_[0] == "and" else [g_]):
+                        if it[0] == "lit" and it[2] and it[1][0] == "call" and it[1][1] == ("builtin", "isinstance") and len(it[1][2]) == 2:
+                            names |= {s_[1].rsplit(".", 1)[-1] for s_ in subterms(it[1][2][1]) if s_[0] == "global" and s_[1].rsplit(".", 1)[-1] in models}
+                if not names and not in_case and not pc:
+                    names = set(models)  # unconditional validation
+                for nm in names:
+                    covered.setdefault(nm, call_)
+            for nm in sorted(models):
+                ok_ = nm in covered
+                res.add(init, covered.get(nm, init.node), f"method using ['{nm}'] validates its window at construction", ok_,
+                        "" if ok_ else "a first/last method is constructed without window validation", construct=f"{c.name}.__init__: validate ['{nm}']")
     res.exhaustive = True
     res.notes.append(f"{n_checked} (n, first, last) triples interpreted")
     res.floor = 3
